@@ -580,7 +580,9 @@ template<class T> constexpr T spice(T*t) {return *t;}
         if(!strcmp("", args)) {\
             data.reply(loc, "i", obj->name[idx]); \
         } else { \
-            char var = rtosc_argument(msg, 0).i; \
+            /* the element's own type, as in rParamICb (a char truncated int arrays) */ \
+            auto var = obj->name[idx]; \
+            var = rtosc_argument(msg, 0).i; \
             rLIMIT(var, atoi) \
             rAPPLY(name[idx], i) \
             data.broadcast(loc, "i", obj->name[idx]);\
